@@ -124,7 +124,7 @@ def common_kwargs(c, r):
     return dict(kw)
 
 
-def build_point(c, r):
+def build_point(c, r, mut=None):
     import numpy
     import pandas
     BaseIsotherm = klass("base", {})
@@ -143,6 +143,12 @@ def build_point(c, r):
 
     p = [num(x["p"]) for x in rows]
     lo = [num(x["l"]) for x in rows]
+    enth = [fx(x["enth"]) for x in rows]
+    if mut and mut["kind"] == "zero written as -0.0":
+        target = {"p": p, "l": lo, "enth": enth}[mut["a"]]
+        if target[mut["i"] - 1] != 0:
+            raise ValueError("-0.0 rendering asked for a non-zero cell")
+        target[mut["i"] - 1] = -0.0
     marks = [bool(x["b"]) for x in rows] if r["br"] in ("bools", "column_bool") else [int(x["b"]) for x in rows]
     kw = common_kwargs(c, r)
     cont = r["cont"]
@@ -160,7 +166,7 @@ def build_point(c, r):
         return PointIsotherm(pressure=p, loading=lo, branch=marks, **kw)
     cols = [("pressure", p), ("loading", lo)]
     if c["extras"]:
-        cols += [("enth", [fx(x["enth"]) for x in rows]), ("note", [x["note"] for x in rows])]
+        cols += [("enth", enth), ("note", [x["note"] for x in rows])]
     if r["br"] in ("column", "column_bool"):
         cols.append(("branch", marks))
     if r["perm"]:
@@ -213,7 +219,7 @@ def materialise(entry):
     if r.get("dflt"):
         earlier_isotherm_with_other_units()
     if c["cls"] == "point":
-        iso = build_point(c, r)
+        iso = build_point(c, r, entry.get("mut"))
     elif c["cls"] == "model":
         iso = build_model(c, r)
     else:
@@ -375,9 +381,9 @@ class EditNotRealisable(Exception):
     """This way of editing cannot express the mutation on this object (e.g. a float into an int column)."""
 
 
-UNDOABLE = {"meta value", "meta value as text", "label", "adsorbate", "temperature", "datum", "text cell", "branch mark",
+UNDOABLE = {"zero written as -0.0", "meta value", "meta value as text", "label", "adsorbate", "temperature", "datum", "text cell", "branch mark",
             "model parameter", "model range", "model rmse", "model branch"}
-EDIT_WAYS = {"datum": 4, "text cell": 4, "branch mark": 4, "meta key added": 2, "material name": 2, "material property": 2,
+EDIT_WAYS = {"datum": 4, "zero written as -0.0": 4, "text cell": 4, "branch mark": 4, "meta key added": 2, "material name": 2, "material property": 2,
              "row removed": 2, "column added": 2, "model range": 2}
 
 
@@ -438,9 +444,12 @@ def edit_in_place(iso, mut, target, way):
         iso.adsorbate = target["adsorbate"]
     elif kind == "temperature":
         iso.temperature = target["temp"] / 1e6
-    elif kind in ("datum", "text cell", "branch mark"):
+    elif kind in ("datum", "text cell", "branch mark", "zero written as -0.0"):
         row = target["rows"][i - 1]
-        if kind == "branch mark":
+        if kind == "zero written as -0.0":
+            col = {"p": iso.pressure_key, "l": iso.loading_key, "enth": "enth"}[a]
+            val = -0.0 if mut.get("_apply", True) else 0.0
+        elif kind == "branch mark":
             col, val = "branch", int(row["b"])
         elif kind == "text cell":
             col, val = "note", row["note"]
@@ -507,7 +516,7 @@ def edit_history(base_entry, mut_entry, way, reader, fresh_base, fresh_mut):
            "eq_old": bool(iso == fresh_base), "undo": ""}
     if mut["kind"] in UNDOABLE:
         try:
-            edit_in_place(iso, mut, base_entry["content"], way)
+            edit_in_place(iso, {**mut, "_apply": False}, base_entry["content"], way)
             out["undo"] = iso.iso_id
         except (EditNotRealisable, TypeError, ValueError):
             out["undo"] = ""
